@@ -527,11 +527,12 @@ impl Scenario for HmcSupport {
     }
     fn generate(&self, g: &mut Gen, _t: Tier, _i: u64) -> Value {
         let eps = match g.range(0, 9) {
-            0 => *g.pick(&[1e30, 3.0e38, 1e10, 1e300]),
+            // incl. the largest finite step of either float type and an infinite one
+            0 => *g.pick(&[1e30, 3.0e38, 1e10, 1e300, f32::MAX as f64, f64::MAX, f64::INFINITY, 1e39]),
             1 | 2 => g.log_uniform(1.0, 1e4),
             _ => g.log_uniform(1e-3, 1.0),
         };
-        json!({"float": *g.pick(&["f32", "f64"]), "gseed": g.u64(), "seed": g.u64(), "n_chains": g.usize(1, 8), "eps": fbits(eps), "L": g.usize(1, 16), "steps": g.usize(3, 25)})
+        json!({"float": *g.pick(&["f32", "f64"]), "gseed": g.u64(), "seed": g.u64(), "n_chains": g.usize(1, 8), "eps": fbits(eps), "L": if eps > 1e9 && g.bool(1, 2) { 1 } else { g.usize(1, 16) }, "steps": g.usize(3, 25)})
     }
     fn execute(&self, p: &Value, ws: bool) -> Outcome {
         if ps(p, "float") == "f32" {
